@@ -289,21 +289,32 @@ type sidser interface {
 
 // newSession registers a connection handed out by Accept / Dial.
 func (w *World) newSession(side string, round int, list *[]*Session, conn net.Conn, cd *mailbox.ConnData) *Session {
+	// Calls into the instrumented packages are made without holding w.mu
+	// (with lock points on they may park, and the scheduler itself takes
+	// w.mu). Only one thread per side creates sessions.
+	pattern := cd.HandshakePattern().Name
+	var recvSID, sendSID [64]byte
+	if k, ok := conn.(sidser); ok {
+		recvSID, sendSID = k.VerifSIDs()
+	}
+	w.mu.Lock()
+	var prevConn net.Conn
+	if n := len(*list); n > 0 {
+		prevConn = (*list)[n-1].Conn
+	}
+	w.mu.Unlock()
+	prevOpen := prevConn != nil && isOpen(prevConn)
+
 	w.mu.Lock()
 	defer w.mu.Unlock()
 	w.seq++
 	ss := &Session{Side: side, Index: len(*list), Round: round, At: w.s.Now(), Seq: w.seq, Conn: conn, ClosedAt: -1,
-		Pattern: cd.HandshakePattern().Name}
-	if k, ok := conn.(sidser); ok {
-		ss.RecvSID, ss.SendSID = k.VerifSIDs()
-	}
+		Pattern: pattern, RecvSID: recvSID, SendSID: sendSID}
 	if n := len(*list); n > 0 {
 		prev := (*list)[n-1]
-		if prev.Conn != nil && isOpen(prev.Conn) {
+		if prevOpen {
 			ss.PrevOpen = true
 		}
-		// Without relay faults a connection only ends because one of the
-		// two applications closes it (sessions pair up by index then).
 		// Without relay faults a connection only ends because one of the
 		// two applications ends it of its own accord (sessions pair up by
 		// index then); everything else is a reaction.
